@@ -181,6 +181,37 @@ package app
 //@   assert before SetBodyStream: rgApplied && 0 <= rgStart && rgStart <= rgEnd && rgEnd < 4611686018427387904 ==> arg2 == rgEnd - rgStart + 1
 //@   assert before ResponseHeader.SetContentLength: rgApplied && 0 <= rgStart && rgStart <= rgEnd && rgEnd < 4611686018427387904 ==> arg1 == rgEnd - rgStart + 1
 
+// C07/C08 (path strippers): what they return is a piece of the normalised path cut at segment boundaries - the
+// trailing-slash stripper a prefix whose removed tail is slashes only; the leading-segment stripper a suffix that
+// is empty or starts at a '/', or the empty prefix - so no segment is ever cut in two (a ".." cannot appear that
+// the normalisation had not seen). A path that is empty or starts with '/' never reaches the BUG panic.
+//@ func stripTrailingSlashes(path) r
+//@   props C07, C08
+//@   top-ensures sameArray(r, path) && off(r) == off(path) && len(r) <= len(path) && (len(r) == 0 || r[len(r)-1] != '/')
+//@   top-ensures forall(k, len(r), len(path), path[k] == '/')
+//@   loop 0:
+//@     invariant sameArray(path, old(path)) && off(path) == off(old(path)) && 0 <= len(path) && len(path) <= len(old(path))
+//@     invariant forall(k, 0, len(old(path)), k >= len(path) ==> old(path[k]) == '/')
+
+//@ func stripLeadingSlashes(path, stripSlashes) r
+//@   props C07, C08
+//@   requires len(path) == 0 || path[0] == '/'
+//@   top-ensures sameArray(r, path) && (len(r) == 0 || (r[0] == '/' && off(r) >= off(path) && off(r) + len(r) == off(path) + len(path)))
+//@   loop 0:
+//@     invariant sameArray(path, old(path)) && off(path) >= off(old(path)) && off(path) + len(path) == off(old(path)) + len(old(path)) && len(path) >= 0
+//@     invariant len(path) == 0 || path[0] == '/'
+
+//@ func NewPathSlashesStripper$1(ctx) r
+//@   props C07
+//@   abstract
+//@   noinline
+//@   panics
+//@   modifies vhArr, vhOff, vhLen
+//@   ghostset after RequestContext.Path: vhArr = arr(result)
+//@   ghostset after RequestContext.Path: vhOff = off(result)
+//@   ghostset after RequestContext.Path: vhLen = len(result)
+//@   assert before stripLeadingSlashes: arr(arg0) == vhArr && off(arg0) == vhOff && len(arg0) == vhLen
+
 // C07 (virtual-host rewriter): the path it hands to the file handler contains the Host header, which no
 // normalisation has seen, so what it returns must be the URI's path as normalised again after the rewrite: the
 // slice Path() returned after SetPathBytes (vhNorm: that Path() call came after the SetPathBytes call).
@@ -203,6 +234,17 @@ package app
 //@   ghostset after RequestContext.Path: vhOff = off(result)
 //@   ghostset after RequestContext.Path: vhLen = len(result)
 //@   top-ensures vhNorm && arr(r) == vhArr && off(r) == vhOff && len(r) == vhLen
+
+// C08 (directory requests): a listing is generated only when the handler was configured to generate index pages,
+// and index files are opened with the same compression decision as the request.
+//@ immutable fsHandler.generateIndexPages :: configuration copied from FS when the handler is built
+//@ func fsHandler.openIndexFile(h, ctx, dirPath, mustCompress) r, err
+//@   props C08
+//@   abstract
+//@   noinline
+//@   panics
+//@   assert before createDirIndex: h.generateIndexPages && arg3 == mustCompress
+//@   assert before openFSFile: arg2 == mustCompress
 
 // C08 (a compressed sibling is served only while it mirrors the file): openFSFile hands the ".hertz.gz" file to
 // newFSFile only when its modification time is identical to that of the original (the handler stamps the
